@@ -21,7 +21,7 @@
 //! unless `C06_PARSE_STRICT=1`.
 
 use crate::generate::Case;
-use roto::verif_hooks::c06::{char_flags, lex_all, literal_verdict_rel as literal_verdict, parse_probe};
+use roto::verif_hooks::c06::{char_flags, escape_range, lex_all, literal_verdict_rel as literal_verdict, parse_probe};
 use rotov_harness::Report;
 use rotov_harness::driver::{Driver, hex};
 use serde_json::json;
@@ -128,6 +128,38 @@ fn ask_guarded(drv: &mut Driver, req: &str) -> Result<String, String> {
     }
 }
 
+/// An escape error in an f-string text part: instead of the absolute location
+/// the real parser reports, hand the model the escaper's OWN range, relative to
+/// the piece it was run on. The pieces are the MODEL's (`c06 fpieces`): the real
+/// escaper is run on each of them in order (hook `escape_range`), the first
+/// fatal error gives `F:<s>:<e>:<Kind>:rel:<j>:<a>:<b>`. If the model cut the
+/// text differently from `unescape_f_string_part`, the location it computes
+/// from this differs from the real one and the comparison fails. Anything
+/// unexpected leaves the entry as it is (absolute).
+fn refine_f_entry(src: &str, entry: String, drv: &mut Driver) -> String {
+    let w: Vec<&str> = entry.split(':').collect();
+    let ("F", Ok(s), Ok(e)) = (w[0], w.get(1).map_or(Err(()), |x| x.parse::<usize>().map_err(|_| ())),
+        w.get(2).map_or(Err(()), |x| x.parse::<usize>().map_err(|_| ()))) else { return entry };
+    if w.len() != 6 || !in_source(src, s, e) {
+        return entry;
+    }
+    let kind = w[3];
+    let text = &src[s..e];
+    let Ok(ans) = ask_guarded(drv, &format!("c06 fpieces {}", hex(text))) else { return entry };
+    let Some(list) = ans.trim_end().strip_prefix("pieces ") else { return entry };
+    for (j, pq) in list.split(',').enumerate() {
+        let Some((p, q)) = pq.split_once(':') else { return entry };
+        let (Ok(p), Ok(q)) = (p.parse::<usize>(), q.parse::<usize>()) else { return entry };
+        if !in_source(text, p, q) {
+            return entry;
+        }
+        if let Some((a, b)) = escape_range(&text[p..q]) {
+            return format!("F:{s}:{e}:{kind}:rel:{j}:{a}:{b}");
+        }
+    }
+    entry
+}
+
 /// Run the differential on one single-file source text.
 pub fn diff_source(src: &str, toks: Option<&[Tok]>, drv: Option<&mut Driver>) -> Diff {
     crate::stage("parse-real");
@@ -161,6 +193,7 @@ pub fn diff_source(src: &str, toks: Option<&[Tok]>, drv: Option<&mut Driver>) ->
         }
     }
     crate::stage("parse-model");
+    d.lits = std::mem::take(&mut d.lits).into_iter().map(|l| refine_f_entry(src, l, drv)).collect();
     let h = if src.is_empty() { "-".to_string() } else { hex(src) };
     let flags = flag_table(src);
     loop {
@@ -202,7 +235,10 @@ pub fn diff_source(src: &str, toks: Option<&[Tok]>, drv: Option<&mut Driver>) ->
                 return d;
             }
             match lit_entry(src, k, s, e) {
-                Ok(l) => d.lits.push(l),
+                Ok(l) => {
+                    let l = refine_f_entry(src, l, drv);
+                    d.lits.push(l)
+                }
                 Err(p) => {
                     d.real = p;
                     d.model = ans;
